@@ -1,19 +1,29 @@
-/* harness API: implemented natively by the executor (symbolic) and by vf_replay.c (concrete replay) */
+/* harness API: implemented symbolically by the executor (llsx) and concretely by vf_native.cpp (replay / differential) */
 #ifndef VF_H
 #define VF_H
 #ifdef __cplusplus
 extern "C" {
 #endif
+/* data inputs (wide domains, not part of a finding's key) */
 int vf_int(const char* name);
 unsigned vf_uint(const char* name);
 long vf_long(const char* name);
 signed char vf_i8(const char* name);
+unsigned char vf_u8(const char* name);
 short vf_i16(const char* name);
 double vf_double(const char* name);
+/* key inputs (small domains; a finding is identified by their values) */
 int vf_range(const char* name, int lo, int hi); /* lo<=x<=hi */
+int vf_pick(const char* name, int n);           /* 0<=x<n */
+int vf_bool(const char* name);
 void vf_assume(int cond);
 void vf_assert(int cond, const char* id);
 void vf_reach(const char* id);
+void vf_note(const char* text);                 /* observation record (compared between engine and native run) */
+void vf_notei(const char* text, long v);
+void vf_budget(long instructions);              /* from here on the path may execute at most this many IR instructions */
+int vf_is_symbolic(void);
+long vf_concretize(long v);
 #ifdef __cplusplus
 }
 #endif
